@@ -3,7 +3,7 @@ from .C03 import LOOP_TB, LOOP_RUNS, LOOP_RULE
 
 PROP = {
     "id": "C14",
-    "lean_targets": ["Sonic.Props.C14"],
+    "lean_targets": ["Sonic.Props.C14", "Sonic.Props.C02"],
     "theorems": [
         "Sonic.Props.C14.C14_dispatch_accounting",
         "Sonic.Props.C14.C14_inline_depth_bounded",
@@ -11,6 +11,11 @@ PROP = {
         "Sonic.Props.C14.C14_counter_zero_when_idle",
         "Sonic.Props.C14.C14_deferred_at_limit",
         "Sonic.Model.Loop.step_disp_core",
+        # over the transfer model of C02 (tied to file.go / async_adapter.go by the `xfer` component, deferred issues included)
+        "Sonic.Props.C02.C14_deferred_read_same_result",
+        "Sonic.Props.C02.C14_deferred_write_same_result",
+        "Sonic.Props.C02.C02_read_would_block_irrelevant",
+        "Sonic.Props.C02.C02_write_would_block_irrelevant",
     ],
     # second run: datagram reads and writes of packet conns and multicast peers issued at the dispatch limit (component of C12, whose
     # monitor knows which datagram must reach which socket): "still completes with the result it would have had inline"
@@ -45,13 +50,16 @@ PROP = {
                       "IO.Dispatched = base + number of nested inline completions; an inline completion is taken only below "
                       "MaxCallbackDispatch, so at most MaxCallbackDispatch are nested (the poller contributes one uncounted frame per "
                       "poll frame); at the limit a start can only be deferred; after unwinding the counter is back at its base (zero "
-                      "without an explicit store). 'The deferred operation completes with the same result as inline' is kernel "
-                      "behaviour: checked by the trace monitor's data/ledger clauses and the drain phase; known finding: regular files "
-                      "cannot be deferred (epoll returns EPERM).",
+                      "without an explicit store). 'The deferred operation completes with the same result as inline': proved for stream reads and writes over "
+                      "the transfer model of C02 (C14_deferred_{read,write}_same_result, and would-blocks anywhere in the schedule are "
+                      "irrelevant to result class, count and bytes), that model being executed against file.go on pipes with operations "
+                      "issued at the limit (`xfer`, script lines ending in d: deferred, never inline, same result); for the other "
+                      "descriptor kinds it is kernel behaviour, checked by the trace monitor's data/ledger clauses and the drain phase; "
+                      "known finding: regular files cannot be deferred (epoll returns EPERM).",
         "design_ref": "5/C14",
         "level_note": "Trusted: Lean kernel; hand-written loop model tied to the code by trace acceptance. The five copies of the counter "
                       "logic (file, listener, packet conn, multicast peer) are one reactor in the model with per-kind flags; multicast "
                       "peer is exercised by C12's harness only.",
-        "technique": "Lean 4 invariant proof over a loop-model LTS + trace acceptance on the real event loop",
+        "technique": "Lean 4 invariant proof over a loop-model LTS + induction over kernel schedules of the transfer model + trace acceptance on the real event loop and differential execution of the transfer model",
     },
 }
